@@ -28,8 +28,8 @@ pub fn v_to_i64(v: &[P]) -> Vec<refimpl::Poly> { v.iter().map(to_i64).collect() 
 pub fn v_to_i32(v: &[refimpl::Poly]) -> Vec<P> { v.iter().map(to_i32).collect() }
 
 pub trait PS: Sync + Send + 'static {
-    type Pk: Clone + Send + Sync;
-    type Sk: Clone + Send + Sync;
+    type Pk: Clone + Send;
+    type Sk: Clone + Send;
     const SET: u32;
     fn p() -> &'static Params { refimpl::params(Self::SET) }
 
